@@ -120,6 +120,20 @@ def step (s : St) : Ev → St
         let s1 := { s with running := running }
         maybeStart now s1.queue.length s1
   | .tick now =>
+    -- a receiver that is being served or is waiting for a slot is not idle, however long ago it last spoke
+    let expired : Nat → Bool := fun p =>
+      match s.status p with
+      | none => false
+      | some .transferring => false
+      | some .queued => false
+      | some _ => decide (now - s.lastSeen p > s.ttl)
+    { s with
+      status := fun p => if expired p then none else s.status p
+      queue := s.queue.filter (fun p => !expired p) }
+
+/-- the clean-up tick as it was: everybody but the receivers being served expires, also those waiting in the queue -/
+def stepOld (s : St) : Ev → St
+  | .tick now =>
     let expired : Nat → Bool := fun p =>
       match s.status p with
       | none => false
@@ -128,6 +142,11 @@ def step (s : St) : Ev → St
     { s with
       status := fun p => if expired p then none else s.status p
       queue := s.queue.filter (fun p => !expired p) }
+  | e => step s e
+
+def runOld (s : St) : List Ev → St
+  | [] => s
+  | e :: es => runOld (stepOld s e) es
 
 def run (s : St) : List Ev → St
   | [] => s
